@@ -4,7 +4,8 @@
 From Coq Require Import List Arith ZArith Floats Reals.
 From OV Require Import Base.Panic Base.Arith Model.Vector Model.Matrix Model.Sparse Model.Iter Inst.FloatInst Inst.QcInst
   Proofs.Iter Proofs.IterField Proofs.IterInst Proofs.IterR Proofs.IterRows.
-From OV Require Import Proofs.SparseBase Proofs.SparseMul Proofs.IterSparse Proofs.IterSparseR Proofs.IterCGExamples.
+From OV Require Import Proofs.SparseBase Proofs.SparseMul Proofs.IterSparse Proofs.IterSparseErr Proofs.IterSparseR
+  Proofs.IterSparseBreakdown Proofs.IterCGExamples.
 From OV Require Import Proofs.SparseBase Proofs.SparseMul Proofs.IterR Proofs.IterSparse Proofs.IterSparseR Proofs.IterSparseBreakdown Proofs.IterSparseBreakdownField
   Proofs.IterCGVec Proofs.IterCGDim Proofs.IterCG Proofs.IterCGR Proofs.IterCGSparse Proofs.IterCGExamples.
 Import ListNotations.
@@ -150,6 +151,67 @@ Print Assumptions ok_means_solved_sparse_R.
 Example ok_means_solved_sparse_R_nonvacuous : wfS exr_s /\ exists b g, length b = 2 /\
     @run_sparse SAR CG exr_s b [1%R; 2%R] 5 1%R = Ok (IOk 0, [1%R; 2%R], g).
 Proof. split; [exact exr_s_wf|]. apply exr_run_ok. intros itol H; discriminate H. Qed.
+
+(* ---- the other half: what a reported FAILURE means.  ANY arithmetic (floats included), every solver, every Err exit (budget exhausted or a
+   breakdown exit): the value e of Err(e) is the code's error measure norm2 / ||b||' of the very vector the ghost g_t names (the recurrence
+   residual); and an Err through budget exhaustion (exit code 2) carries a value that FAILED the last convergence test *)
+Theorem err_value_reported : forall (A : SArith) (mulA mulAT : list (T (SA A)) -> res (list (T (SA A)))) rows cols
+    sv b x0 n tol e x g,
+  run mulA mulAT rows cols sv b x0 n tol = Ok (IErr e, x, g) ->
+  div (norm2 (g_t g)) (nz (norm2 b)) = Ok e /\ (g_exit g = 2 -> leb e tol = false \/ ltb e tol = false).
+Proof. intros A mulA mulAT rows cols sv b x0 n tol e x g. exact (run_err_value mulA mulAT rows cols sv b x0 n tol e x g). Qed.
+Check err_value_reported : forall (A : SArith) (mulA mulAT : list (T (SA A)) -> res (list (T (SA A)))) rows cols
+    sv b x0 n tol e x g,
+  run mulA mulAT rows cols sv b x0 n tol = Ok (IErr e, x, g) ->
+  div (norm2 (g_t g)) (nz (norm2 b)) = Ok e /\ (g_exit g = 2 -> leb e tol = false \/ ltb e tol = false).
+Print Assumptions err_value_reported.
+Example err_value_reported_nonvacuous : exit_code kf_stab_run = Some 10 /\ exit_code kf_qmr_run = Some 21 /\ exit_code (kf_bicg_run 1) = Some 2.
+Proof. split; [exact kf_stab_exit_lemma|]. split; [exact kf_qmr_exit_lemma | exact (proj1 (proj2 (proj2 bicg_no_breakdown_test_lemma)))]. Qed.
+
+(* over a field with a linear product: Err(e) reports the TRUE relative residual ||b - A x|| / ||b||' of the returned x *)
+Theorem err_reports_true_residual : forall (A : SArith), FieldLaws (SA A) ->
+  forall n (mulA mulAT : list (T (SA A)) -> res (list (T (SA A)))) cols sv b x0 max tol e x g,
+  LinOp n mulA -> run mulA mulAT n cols sv b x0 max tol = Ok (IErr e, x, g) ->
+  exists ax, mulA x = Ok ax /\ div (norm2 (zipw sub b ax)) (nz (norm2 b)) = Ok e /\
+    (g_exit g = 2 -> leb e tol = false \/ ltb e tol = false).
+Proof. intros A FL n mulA mulAT cols sv b x0 max tol e x g. exact (run_err_true_residual FL n mulA mulAT cols sv b x0 max tol e x g). Qed.
+Check err_reports_true_residual : forall (A : SArith), FieldLaws (SA A) ->
+  forall n (mulA mulAT : list (T (SA A)) -> res (list (T (SA A)))) cols sv b x0 max tol e x g,
+  LinOp n mulA -> run mulA mulAT n cols sv b x0 max tol = Ok (IErr e, x, g) ->
+  exists ax, mulA x = Ok ax /\ div (norm2 (zipw sub b ax)) (nz (norm2 b)) = Ok e /\
+    (g_exit g = 2 -> leb e tol = false \/ ltb e tol = false).
+Print Assumptions err_reports_true_residual.
+Example err_reports_true_residual_nonvacuous : LinOp 2 (@sp_mul AQ exq_s) /\ exists e x g,
+    @run SAQ (sp_mul exq_s) (sp_tmul exq_s) 2 2 CG [q 1 1; q 2 1] [q 2 1; q 1 1] 1 (q 1 1000) = Ok (IErr e, x, g).
+Proof. split; [exact exq_lin|]. vm_compute. do 3 eexists. reflexivity. Qed.
+
+Theorem err_reports_true_residual_sparse : forall (A : SArith), FieldLaws (SA A) ->
+  forall sv (s : sparse (SA A)) b x0 max tol e x g,
+  wfS s -> run_sparse sv s b x0 max tol = Ok (IErr e, x, g) ->
+  div (norm2 (zipw sub b (sp_apply s x))) (nz (norm2 b)) = Ok e /\
+  (g_exit g = 2 -> leb e tol = false \/ ltb e tol = false).
+Proof. intros A FL sv s b x0 max tol e x g. exact (run_sparse_err_true_residual FL sv s b x0 max tol e x g). Qed.
+Check err_reports_true_residual_sparse : forall (A : SArith), FieldLaws (SA A) ->
+  forall sv (s : sparse (SA A)) b x0 max tol e x g,
+  wfS s -> run_sparse sv s b x0 max tol = Ok (IErr e, x, g) ->
+  div (norm2 (zipw sub b (sp_apply s x))) (nz (norm2 b)) = Ok e /\
+  (g_exit g = 2 -> leb e tol = false \/ ltb e tol = false).
+Print Assumptions err_reports_true_residual_sparse.
+Example err_reports_true_residual_sparse_nonvacuous : wfS exq_s /\ exists e x g,
+    @run_sparse SAQ CG exq_s [q 1 1; q 2 1] [q 2 1; q 1 1] 1 (q 1 1000) = Ok (IErr e, x, g).
+Proof. split; [exact exq_s_wf|]. vm_compute. do 3 eexists. reflexivity. Qed.
+
+(* over R: e = ||b - A x||_2 / ||b||', and after budget exhaustion tol <= e: Ok k <-> solved to tol, Err(e) at exhaustion <-> not below tol *)
+Theorem err_reports_true_residual_sparse_R : forall sv (s : sparse AR) (b x0 : list R) max (tol : R) e x g,
+  wfS s -> @run_sparse SAR sv s b x0 max tol = Ok (IErr e, x, g) ->
+  e = (@norm2 SAR (@zipw AR Rminus b (@sp_apply AR s x)) * / @nz SAR (@norm2 SAR b))%R /\
+  (g_exit g = 2 -> (tol <= e)%R).
+Proof. intros sv s b x0 max tol e x g. exact (run_sparse_err_true_residual_R sv s b x0 max tol e x g). Qed.
+Check err_reports_true_residual_sparse_R : forall sv (s : sparse AR) (b x0 : list R) max (tol : R) e x g,
+  wfS s -> @run_sparse SAR sv s b x0 max tol = Ok (IErr e, x, g) ->
+  e = (@norm2 SAR (@zipw AR Rminus b (@sp_apply AR s x)) * / @nz SAR (@norm2 SAR b))%R /\
+  (g_exit g = 2 -> (tol <= e)%R).
+Print Assumptions err_reports_true_residual_sparse_R.
 
 End C08.
 
